@@ -194,6 +194,7 @@ def check_case(case, sess: Session):
         sess.count("fixture_hit_passes")
     sess.evaluations += 1
     sess.count("turns_run")
+    sess.sample({k: case[k] for k in ("allow", "plan_flag", "dry_run", "backend", "fault", "agent", "turn", "text")} | {"reflection_cfg": case["cfg"]["t3"]["reflection"], "budgets": case["cfg"]["scheduler"]["budgets"]})
     tcase = dict(case)
     r = o["r"]
     if r["exc"]:
